@@ -55,10 +55,13 @@ def plan(pid, tier):
     T = tier == "thorough"
     P = {
         "C01": [job("C01", "race", timeout=1500, parts=8)],
-        "C03": [job("C03", "race", timeout=1500, parts=8)],
-        "C04": [job("C04", "race", timeout=1500, parts=8)],
-        "C13": [job("C13", "race", timeout=1500, parts=8)],
-        "C17": [job("C17", "race", timeout=1500, parts=8)],
+        "C03": [job("C03", "race", timeout=1500, parts=8), job("GATED", "race", arg="C03", timeout=1500, parts=4)],
+        "C04": [job("C04", "race", timeout=1500, parts=8), job("GATED", "race", arg="C04", timeout=1500, parts=4)],
+        "C13": [job("C13", "race", timeout=1500, parts=8), job("GATED", "race", arg="C13", timeout=1500, parts=4)],
+        "C17": [job("C17", "race", timeout=1500, parts=8), job("GATED", "race", arg="C17", timeout=1500, parts=4)],
+        "C05": [job("C05X", "race", timeout=1500, parts=8), job("GATED", "race", arg="C05", timeout=1500, parts=4)],
+        "C06": [job("GATED", "race", arg="C06", timeout=1500, parts=8)],
+        "C15": [job("GATED", "race", arg="C15", timeout=1500, parts=8)],
         "C10": [job("C10", "ptr", timeout=1500, parts=6)],
         "C11": [job("C11", "ptr", timeout=1500, parts=8)],
         "C12": [job("C12", "race", timeout=1500, parts=6), job("C12", "ptr", arg="bulk", timeout=1500, parts=6)],
@@ -135,7 +138,7 @@ def run_child(work, idx, j, part, tier, seed):
     log = os.path.join(work, name + ".log")
     tmp = os.path.join(work, name + ".tmp")
     os.makedirs(tmp, exist_ok=True)
-    to = j["timeout"] or (1800 if tier == "thorough" else 600)
+    to = (j["timeout"] or 1800) if tier == "thorough" else min(j["timeout"] or 600, 600)
     cmd = ["timeout", "-s", "QUIT", "-k", "20", str(to), os.path.join(BIN, "vwork." + j["bin"]),
            "-tier", tier, "-seed", str(seed), "-part", str(part), "-nparts", str(j["parts"]),
            "-out", out, "-journal", jr, "-tmp", tmp]
